@@ -182,6 +182,10 @@ def run(ctx):
         if notes:
             ctx.notes.append("%d panic(s) while USING valid requests that are not slot-index panics (not a C19 violation, "
                              "allocator robustness): first: %s" % (summ.get("note", len(notes)), notes[0][:300]))
+        hyps = [t for k, t in mism if k == "HYP"]
+        if hyps:
+            ctx.notes.append("%d invalid request(s) for configurations OUTSIDE the theorem's hypotheses (duplicate class ids "
+                             "with different kinds; not counted as a C19 violation): first: %s" % (summ.get("hyp", len(hyps)), hyps[0][:300]))
         for kind, text in mism:
             if kind in ("NOTE", "HYP"):
                 continue
